@@ -8,6 +8,7 @@
 From RV Require Import Lib.Res Repl.ClientTicks Repl.World Vis.Visibility Repl.Server Repl.ServerSpec
   Repl.Server_proofs.
 From Coq Require Import Permutation.
+From RV Require Import Repl.ClientTicks_proofs.
 Open Scope N_scope.
 
 (* the helper definitions are what `send_for_client` computes *)
@@ -150,3 +151,8 @@ Print Assumptions C10L1_update_or_mutate_exclusive.
 Print Assumptions C10L1_mutations_never_split.
 Print Assumptions C10L1_bad_partition_fallback.
 Print Assumptions C10L1_changed_mutated_nodup.
+
+(* the wrap-around of the mutate index in the model is that of the current source *)
+Theorem C10L1_mutate_index_width_pinned : (RV.Generated.Params.mutate_index_width = 16)%N.
+Proof. exact mutate_index_width_pinned. Qed.
+Print Assumptions C10L1_mutate_index_width_pinned.
